@@ -83,6 +83,22 @@ fn apply<T: Val>(s: &mut Stack<T>, op: &Tree) -> Option<Tree> {
             let mut it = v.into_iter().filter(|_| true);
             unit(s.try_extend(&mut it))
         }
+        15 => {
+            // an iterator that reports no upper bound on its length (size_hint = (0, None))
+            let v = vs(o.get(1)?)?;
+            let mut src = v.into_iter();
+            let mut it = std::iter::from_fn(move || src.next());
+            unit(s.try_extend(&mut it))
+        }
+        16 => {
+            // an exact-size iterator of a huge claimed length (nothing is allocated up front); only valid where
+            // it cannot fit, so a correct push_many answers Overflow without drawing a single element
+            let n = o.get(1)?.usize()?;
+            if n < (1 << 40) || n.checked_add(s.size()).is_some_and(|t| t <= s.max_stack_size()) {
+                return None;
+            }
+            unit(s.push_many((0..n).map(|_| T::of(7))))
+        }
         10 => {
             s.set_max_stack_size(o.get(1)?.usize()?);
             tl![A(0)]
@@ -124,7 +140,8 @@ fn gen_hist(rng: &mut Sm, kind: i64, maxlen: usize) -> Tree {
     let len = 1 + rng.below(maxlen);
     let mut ops = vec![];
     // a small capacity most of the time, set at the start, sometimes never set
-    if rng.chance(9, 10) {
+    let capped = rng.chance(9, 10);
+    if capped {
         ops.push(tl![A(10), a(rng.range(0, 8))]);
     }
     let mut ctr: i64 = 0;
@@ -153,9 +170,20 @@ fn gen_hist(rng: &mut Sm, kind: i64, maxlen: usize) -> Tree {
                 let n = rng.below(5);
                 tl![A(8), L((0..n).map(|_| fresh(rng)).collect())]
             }
-            74..=82 => {
+            74..=78 => {
                 let n = rng.below(5);
                 tl![A(9), L((0..n).map(|_| fresh(rng)).collect())]
+            }
+            79..=81 => {
+                let n = rng.below(5);
+                tl![A(15), L((0..n).map(|_| fresh(rng)).collect())]
+            }
+            82 => {
+                if capped {
+                    tl![A(16), a(*rng.pick(&[usize::MAX as i128, usize::MAX as i128 - 1, usize::MAX as i128 - 8, 1i128 << 63, 1i128 << 40]))]
+                } else {
+                    tl![A(13)]
+                }
             }
             83..=90 => tl![A(10), a(rng.range(0, 8))],
             91..=93 => tl![A(11)],
@@ -169,7 +197,7 @@ fn gen_hist(rng: &mut Sm, kind: i64, maxlen: usize) -> Tree {
 }
 
 fn exhaustive(g: &mut Gen, depth: usize) {
-    // all histories of length <= depth over a 9-operation alphabet, capacity 0..=2
+    // all histories of length <= depth over an 11-operation alphabet, capacity 0..=2
     let alphabet: Vec<Tree> = vec![
         tl![A(0), A(7)],
         tl![A(1)],
@@ -180,6 +208,8 @@ fn exhaustive(g: &mut Gen, depth: usize) {
         tl![A(9), L(vec![A(5), A(6)])],
         tl![A(10), A(1)],
         tl![A(13)],
+        tl![A(15), L(vec![A(3), A(4)])],
+        tl![A(3)],
     ];
     for cap in 0..=2i64 {
         let mut stack: Vec<Vec<usize>> = vec![vec![]];
@@ -213,6 +243,21 @@ fn gen(tier: &str, rng: &mut Sm) -> Gen {
         tl![A(9), L(vec![A(1)])],
         tl![A(8), L(vec![])],
     ])]);
+    // usize arithmetic: on a stack with the default (usize::MAX) maximum a bulk insertion whose claimed length
+    // plus the current size does not fit in usize must be an Overflow, whatever the element type
+    for kind in 0..3i64 {
+        g.inputs.push(tl![a(kind), L(vec![
+            tl![A(0), A(1)],
+            tl![A(16), a(usize::MAX as i128)],
+            tl![A(0), A(0)],
+            tl![A(16), a(usize::MAX as i128 - 1)],
+            tl![A(15), L(vec![A(1), A(0)])],
+            tl![A(10), A(5)],
+            tl![A(15), L(vec![A(1), A(0)])],
+            tl![A(16), a(1i128 << 62)],
+            tl![A(11)],
+        ])]);
+    }
     for i in 0..n {
         let kind = match i % 10 {
             0..=5 => 0,
